@@ -1452,3 +1452,58 @@ mut(
     "    if _param.get(\"nullable\") is not None:\n",
     mention=("nullable",),
 )
+
+mut(
+    "c11-bracket-repair-loop-overshoots",
+    "C11",
+    "C11.variant",
+    "cdd/shared/emit/utils/emitter_utils.py",
+    "    balanced: bool = (s.count(\"[\") + s.count(\"]\")) & 1 == 0\n    return ast.parse(s if balanced else \"{}]\".format(s)).body[0].value\n",
+    "    while s.count(\"[\") != s.count(\"]\"):\n        s += \"]\"\n    return ast.parse(s).body[0].value\n",
+    mention=("never ends",),
+)
+mut(
+    "c11-bracket-repair-loop-guarded",  # the same loop under a direction guard terminates: must NOT be reported
+    "C11",
+    "C11.variant",
+    "cdd/shared/emit/utils/emitter_utils.py",
+    "    balanced: bool = (s.count(\"[\") + s.count(\"]\")) & 1 == 0\n    return ast.parse(s if balanced else \"{}]\".format(s)).body[0].value\n",
+    "    if s.count(\"[\") > s.count(\"]\"):\n        while s.count(\"[\") != s.count(\"]\"):\n            s += \"]\"\n    return ast.parse(s).body[0].value\n",
+    expect="ok",
+)
+mut2(
+    "c11-exponential-regex",
+    "C11",
+    "C11.regex",
+    [
+        {"file": "cdd/shared/defaults_utils.py", "old": "import ast\nfrom ast import literal_eval\n", "new": "import ast\nimport re\nfrom ast import literal_eval\n"},
+        {
+            "file": "cdd/shared/defaults_utils.py",
+            "old": "def ast_parse_fix(s):\n",
+            "new": "WORDS = re.compile(r\"^(\\w+\\s*)+$\")\n\n\ndef ast_parse_fix(s):\n",
+        },
+    ],
+)
+mut2(
+    "c11-linear-regex",  # a linear pattern: must NOT be reported
+    "C11",
+    "C11.regex",
+    [
+        {"file": "cdd/shared/defaults_utils.py", "old": "import ast\nfrom ast import literal_eval\n", "new": "import ast\nimport re\nfrom ast import literal_eval\n"},
+        {
+            "file": "cdd/shared/defaults_utils.py",
+            "old": "def ast_parse_fix(s):\n",
+            "new": "WORDS = re.compile(r\"^\\w+(?:\\.\\w+)*$\")\n\n\ndef ast_parse_fix(s):\n",
+        },
+    ],
+    expect="ok",
+)
+mut(
+    "c11-loop-until-callee-returns-none",
+    "C11",
+    "C11.variant",
+    "cdd/shared/defaults_utils.py",
+    "        _param[\"doc\"] = extract_default(\n            _param[\"doc\"], emit_default_doc=emit_default_doc\n        )[0]\n",
+    "        default = _param[\"doc\"]\n        while default is not None:\n            _param[\"doc\"], default = extract_default(\n                _param[\"doc\"], emit_default_doc=emit_default_doc\n            )\n",
+    mention=("extract_default",),
+)
